@@ -280,3 +280,20 @@ func Min(a, b int) int {
 	}
 	return b
 }
+
+// DistinctSyms assumes that bytes at different positions hold different values,
+// except where two positions hold the very same symbolic byte (copies).
+func DistinctSyms(bs ...[]byte) {
+	var all []byte
+	for _, b := range bs {
+		all = append(all, b...)
+	}
+	for i := range all {
+		for j := i + 1; j < len(all); j++ {
+			if rt.SameSymbol(all[i], all[j]) {
+				continue
+			}
+			rt.Assume(all[i] != all[j])
+		}
+	}
+}
